@@ -317,6 +317,7 @@ impl Evidence {
         let dir = &std::env::var("VERIF_EVIDENCE_DIR").unwrap_or_else(|_| dir.to_string());
         let wall = self.start.elapsed().as_secs_f64();
         let mut cov = self.coverage.clone();
+        cov.entry("simulated_time".to_string()).or_insert_with(|| json!("not applicable: none of the code paths under this property has a timer, deadline or sleep; progress is measured in scheduling decisions / libc-call events (the clock is only a seeded *value* source: C15 offsets, C30 fetch ids)"));
         if let Some(ev) = cov.get("evaluations").and_then(|v| v.as_u64()) {
             cov.insert("runs_per_hour".into(), json!((ev as f64 / wall.max(1e-9) * 3600.0) as u64));
         }
